@@ -24,7 +24,7 @@ from insights.core import dr
 from insights.core.context import ExecutionContext, HostContext, JBossContext, SerializedArchiveContext
 from insights.core.exceptions import ContentException, SkipComponent
 from insights.core.plugins import datasource, is_datasource
-from insights.core.spec_factory import RegistryPoint, SpecDescriptor, SpecSet
+from insights.core.spec_factory import RegistryPoint, SpecDescriptor, SpecSet, first_of
 
 OUTCOMES = ["v", "n", "skip", "content", "crash"]
 F_FREE = "context-free-implementation"
@@ -33,6 +33,25 @@ F_REACH = "context-through-registry-point"
 
 class Crash(Exception):
     pass
+
+
+# specialised datasource types: "is a datasource" is decided by type hierarchy
+class audited_datasource(datasource):
+    """a subclass of insights.core.plugins.datasource used as a decorator"""
+    pass
+
+
+class strict_audited_datasource(audited_datasource):
+    """two levels deep, with extra class attributes"""
+    timeout = 7
+    no_redact = True
+    audited = True
+
+
+# the reverse trap: a component type that is merely NAMED "datasource"
+fake_datasource = type("datasource", (dr.ComponentType,), {"__doc__": "not a datasource: a ComponentType of that name"})
+
+DSTYPES = {"plain": datasource, "sub1": audited_datasource, "sub2": strict_audited_datasource, "fake": fake_datasource}
 
 
 _counter = [0]
@@ -89,6 +108,8 @@ class SWorld(object):
             self.points.append(self.nctx + k)
         self.classes = []
         self.decls = {}     # cid -> (items text for the driver)
+        self.deco = {}      # cid -> the component type used as decorator
+        self.fixed = {}     # cid -> outcome the harness cannot choose (spec_factory helpers)
         self.defined = 0    # number of classes of the history created so far
         self.ids = dict((c, i) for i, c in self.comps.items())
         while define_all and self.defined < len(case["classes"]):
@@ -117,10 +138,11 @@ class SWorld(object):
         """the history as far as it has been created"""
         return dict(self.case, classes=self.case["classes"][:self.defined])
 
-    def _ds(self, cid, deps, tag):
+    def _ds(self, cid, deps, tag, dstype="plain"):
         world = self
+        self.deco[cid] = DSTYPES[dstype]
 
-        def fn(broker):
+        def fn(*args):             # a datasource receives the broker; another component type its dependencies
             world.calls.append(cid)
             o = world.outcome.get(cid, "v")
             if o == "v":
@@ -134,7 +156,7 @@ class SWorld(object):
             raise Crash("crash %d" % cid)
         fn.__name__ = "d%d_%s" % (cid, tag)
         fn.__qualname__ = fn.__name__
-        comp = datasource(*deps)(fn)
+        comp = DSTYPES[dstype](*deps)(fn)
         self.comps[cid] = comp
         return comp
 
@@ -157,14 +179,33 @@ class SWorld(object):
             helper = self._ds(e["helper"], hdeps, tag)
             self.decls[e["helper"]] = hitems
             deps, items = [helper], "o%d" % e["helper"]
+        elif kind == "firstof":
+            # spec_factory.first_of([h1, h2]): a datasource of the PLAIN type built by the factory helper
+            h1 = self._ds(e["helper"], [self.ctxs[e["ctxs"][0]]], tag)
+            h2 = self._ds(e["helper2"], [self.ctxs[e["ctxs"][1]]], tag)
+            self.decls[e["helper"]] = "o%d" % e["ctxs"][0]
+            self.decls[e["helper2"]] = "o%d" % e["ctxs"][1]
+            world = self
+
+            class logged_first_of(first_of):
+                def __call__(self, broker):
+                    world.calls.append(cid)
+                    return super(logged_first_of, self).__call__(broker)
+            comp = logged_first_of([h1, h2])
+            self.comps[cid] = comp
+            self.deco[cid] = dr.get_delegate(comp).type
+            self.decls[cid] = "g%d,%d" % (e["helper"], e["helper2"])
+            self.fixed[cid] = "first"
+            return comp
         elif kind == "pdep":
             deps, items = self._ctx_items(e["ctxs"], False)
             deps = deps + [getattr(self.root, "p%d" % e["pdep"])]
             items = items + ";o%d" % (self.nctx + e["pdep"])
         else:
             raise ValueError(kind)
-        self.decls[cid] = items
-        return self._ds(cid, deps, tag)
+        if e.get("dstype") != "fake":
+            self.decls[cid] = items
+        return self._ds(cid, deps, tag, e.get("dstype") or "plain")
 
     # -- protocol
     def header_lines(self):
@@ -180,7 +221,9 @@ class SWorld(object):
 
     def class_lines(self, ci, walk, new_cids):
         cd = self.case["classes"][ci]
-        es = ";".join("%d:%d:%s:%s" % (e["name"], e["cid"], "P" if e["kind"] == "point" else "D",
+        # the isDatasource flag of the model: issubclass(component type, datasource) on the type actually used
+        es = ";".join("%d:%d:%s:%s" % (e["name"], e["cid"], "P" if e["kind"] == "point" else
+                                       "D" if issubclass(self.deco[e["cid"]], datasource) else "X",
                                        ".".join(map(str, sorted(walk[e["cid"]]))) or "-") for e in cd["entries"])
         out = ["hclass\t%s\t%s" % (",".join(map(str, self.parents_ids(ci))) or "-", es or "-")]
         for cid in new_cids:
@@ -293,6 +336,8 @@ class Analysis(object):
                     self.registry[ci][name] = e["cid"]
                     self.wired[e["cid"]] = []
                 self.walk[e["cid"]] = self.now(e)
+                if e.get("dstype") == "fake":
+                    continue              # not a datasource by type hierarchy: the metaclass leaves it alone
                 pre = []
                 for k in chain:
                     if name not in self.registry[k]:
@@ -345,7 +390,7 @@ class Analysis(object):
         k = e["kind"]
         if k in ("free", "viafree"):
             return True
-        if k in ("single", "group", "via"):
+        if k in ("single", "group", "via", "firstof"):
             return c in e["ctxs"]
         if k == "pdep":
             return c in e["ctxs"] and any(self.runnable(x, c) for x in self.subtree(self.case["nctx"] + e["pdep"]))
@@ -404,6 +449,8 @@ def oracle(report, world, case, active, b, err, desc):
             req_ok = True
             if last["kind"] in ("via", "viafree"):
                 req_ok = world.comps[last["helper"]] in b.instances
+            elif last["kind"] == "firstof":
+                req_ok = world.comps[last["helper"]] in b.instances or world.comps[last["helper2"]] in b.instances
             elif last["kind"] == "pdep":
                 req_ok = world.comps[world.nctx + last["pdep"]] in b.instances
             if req_ok and last["cid"] not in called:
@@ -478,6 +525,22 @@ def gen_case(rng, quick, allow_findings=True):
         if rel and rng.random() < 0.6:
             return list(rng.choice(rel))
         return rng.sample(range(nctx), 2)
+    # decorator types: plain @datasource, specialised subclasses of it (one and two levels deep, extra class
+    # attributes), the factory helper first_of, and rarely a non-datasource type that is merely named "datasource"
+    ds_mode = rng.choice(["mixed", "mixed", "mixed", "every-specialised", "newest-specialised", "older-specialised", "plain-only"])
+
+    def dstype(ci):
+        special = rng.choice(["sub1", "sub1", "sub2"])
+        if ds_mode == "plain-only":
+            return "plain"
+        if ds_mode == "every-specialised":
+            return special
+        if ds_mode == "newest-specialised":
+            return special if ci == nclasses - 1 else "plain"
+        if ds_mode == "older-specialised":
+            return special if ci < nclasses - 1 and rng.random() < 0.7 else "plain"
+        r = rng.random()
+        return "fake" if r < 0.04 else special if r < 0.4 else "plain"
     classes = []
     registry = {-1: set(range(npoints))}      # names each class declares as registry points
     wired_names = set()
@@ -547,16 +610,26 @@ def gen_case(rng, quick, allow_findings=True):
                 e["kind"] = "via"
                 e["helper"] = nid()
                 e["ctxs"] = related_pair() if rng.random() < 0.35 else [rng.randrange(nctx)]
+            if e["kind"] == "group" and ds_mode in ("mixed", "plain-only") and rng.random() < 0.25 and len(set(e["ctxs"])) == 2:
+                e["kind"], e["helper"], e["helper2"] = "firstof", nid(), nid()      # first_of([h(ctxA), h(ctxB)])
+            if e["kind"] not in ("point", "firstof"):
+                e["dstype"] = dstype(ci)
             e["cid"] = nid()
             entries.append(e)
-            if parent < 0 and name < npoints and e["kind"] != "point":
+            if parent < 0 and name < npoints and e["kind"] != "point" and e.get("dstype") != "fake":
                 wired_names.add(name)
         classes.append({"parent": parent, "entries": entries})
     return {"nctx": nctx, "serialized": ctx_special == "serialized", "ctx_special": ctx_special, "ctx_parent": ctx_parent,
-            "npoints": npoints, "classes": classes, "focus": focus}
+            "npoints": npoints, "classes": classes, "focus": focus, "ds_mode": ds_mode}
 
 
 def gen_outcome(rng, world, style):
+    o = _gen_outcome(rng, world, style)
+    o.update((c, v) for c, v in world.fixed.items() if c in o)
+    return o
+
+
+def _gen_outcome(rng, world, style):
     cids = sorted(world.decls)
     if style == "all-v":
         return dict((c, "v") for c in cids)
@@ -677,6 +750,7 @@ def check_world(chk, report, rng, case, lines, impl, cases, runs_per_ctx):
             evaluate(active, ["all-v", "latest-bad", "one-bad", "random"][j % 4], "run")
     if chk is not None:
         chk.count("history:%d-interleaved-evaluations" % sum(evals_at.values()))
+        chk.count("history:decorator-types-" + (case.get("ds_mode") or "plain-only"))
         if focus:
             chk.count("history:chain-of-registrations-of-one-spec-for-one-context")
         for f in A.families.values():
@@ -697,6 +771,11 @@ def check_world(chk, report, rng, case, lines, impl, cases, runs_per_ctx):
         for cd in case["classes"]:
             chk.count("class:" + ("extends-root" if cd["parent"] < 0 else "extends-earlier-class"))
             for e in cd["entries"]:
+                if e["kind"] != "point":
+                    chk.count("decorator-type:" + ("spec_factory.first_of(plain)" if e["kind"] == "firstof" else
+                                                   {"plain": "plain-datasource", "sub1": "subclass-of-datasource",
+                                                    "sub2": "subclass-two-levels-with-class-attributes",
+                                                    "fake": "non-datasource-type-NAMED-datasource"}[e.get("dstype") or "plain"]))
                 if cp and any(cp[a] == b_ or cp[b_] == a for a in e["ctxs"] for b_ in e["ctxs"] if a != b_):
                     chk.count("impl-contexts:list-mixing-a-context-and-one-derived-from-it")
                 elif cp and any(cp[a] >= 0 for a in e["ctxs"]):
@@ -944,6 +1023,10 @@ def run(chk):
                 "(chains of up to 4 re-declarations, gaps in the chain, new top-level points in subclasses) and implementations are "
                 "attached at different levels in both registration orders, for the same and for different contexts; the parents "
                 "chain handed to the model is read off the real cls.__mro__; the value is checked at EVERY level's registry point; "
+                "implementations are decorated with plain @datasource, SPECIALISED subclasses of datasource (one and two levels "
+                "deep, extra class attributes: every / the newest / older / random implementations of a spec), the factory helper "
+                "first_of, and rarely a non-datasource component type merely NAMED 'datasource' (must not be wired); the model's "
+                "isDatasource flag is issubclass(type actually used, datasource); "
                 "27% of the histories are CHAINS: 3-6 registrations one after another of one spec name for the same context "
                 "(single / list / through-helper bindings, one for another context in between), other specs interleaved in the same "
                 "class bodies, the focus name not first in the body, an evaluation under that context after EVERY registration step; "
